@@ -153,6 +153,21 @@ theorem map_eq (f : Int → Int) (n : Nat) (t : PT) :
 /-- `operator==` decides equality of the denoted rose trees (addresses and links play no role) -/
 theorem eq_iff (a b : PT) : eqT a b = true ↔ abs a = abs b := eqT_iff a b
 
+/-- The property in one statement: after ANY history (that does not contain the excluded misuse and whose operands exist) the
+heap satisfies the link invariant, denotes exactly the forest of rose trees the reference model computes for the same history, and
+on every live node every observer returns what the reference computation returns on the corresponding reference node. -/
+theorem history_summary (ops : List Op) (s : St) (hr : runOps St.init ops = .ok s) :
+    Inv s ∧ RT.runOps [] ops = some (absF s.forest) ∧
+    ∀ (p : Path) (x : PT), getF p s.forest = some x →
+      RT.getF p (absF s.forest) = some (abs x) ∧
+      preOrder x = .ok (RT.flatten (abs x)) ∧ toRoot s.forest x = .ok (RT.ancestors p (absF s.forest)) ∧
+      level s.forest x = .ok (RT.level p) ∧ depth x = RT.depth (abs x) ∧
+      (∀ (c : Path) (C : PT), getF c s.forest = some C → childPosition x C = RT.childPos p c ∧ (eqT x C = true ↔ abs x = abs C)) ∧
+      (∀ f n, abs (mapT f n x) = RT.map f (abs x)) := by
+  have hi := history_inv ops s hr
+  refine ⟨hi, history_refines ops s hr, fun p x hx => ⟨by rw [abs_getF, hx]; rfl, pre_order_eq x, to_root_eq hi hx,
+    level_eq' hi hx, depth_eq' x, fun c C hC => ⟨child_position_eq hi hx hC, eq_iff x C⟩, fun f n => (map_eq f n x).1⟩⟩
+
 /-! ## `sort()` / `sort(Predicate)`: a stable permutation of the children, all links preserved -/
 
 /-- `sort()` is `sort(Predicate)` with `<` -/
